@@ -10,6 +10,7 @@ import (
 	"strconv"
 
 	"verif/core"
+	"verif/gen"
 	_ "verif/mon"
 )
 
@@ -29,13 +30,27 @@ func main() {
 		for _, id := range core.MonitorIDs() {
 			fmt.Println(id)
 		}
+	case "sample":
+		// cmcheck sample <gen> <profile> <n> [seed]: prints the first n cases of a generator
+		if len(os.Args) < 5 {
+			usage()
+		}
+		n, _ := strconv.Atoi(os.Args[4])
+		seed := uint64(1)
+		if len(os.Args) > 5 {
+			seed, _ = strconv.ParseUint(os.Args[5], 10, 64)
+		}
+		for i := 0; i < n; i++ {
+			in, note := gen.Generate(seed, os.Args[2], os.Args[3], uint64(i))
+			fmt.Printf("%d %s %s\n", i, note, core.Quote(in))
+		}
 	default:
 		usage()
 	}
 }
 
 func usage() {
-	fmt.Fprintln(os.Stderr, "usage: cmcheck run|worker|replay|list ...")
+	fmt.Fprintln(os.Stderr, "usage: cmcheck run|worker|replay|list|sample ...")
 	os.Exit(2)
 }
 
